@@ -141,6 +141,20 @@ theorem localCentered_flat (A : Matrix (Fin D) (Fin d) K) (b : Fin D → K) (T :
   refine Finset.sum_congr rfl fun r _ => ?_
   rw [transpose_apply, ← hc a r, ← hc a' r]
 
+/-- under the local-span condition an affine function of the intrinsic coordinates, restricted to a neighbourhood, is a
+    constant plus a combination of the local eigenvectors -/
+theorem affine_of_hflat (T : Fin N → Fin d → K) (nb : Fin k → Fin N) (U : Mat k d K) (t0 : Fin d → K)
+    (C : Fin d → Fin d → K) (hflat : ∀ a c, T (nb a) c = t0 c + ∑ c', U a c' * C c' c) (c0 : K) (w : Fin d → K)
+    (a : Fin k) :
+    c0 + ∑ c, T (nb a) c * w c = (c0 + ∑ c, t0 c * w c) + ∑ c', U a c' * ∑ c, C c' c * w c := by
+  have : ∀ c, T (nb a) c * w c = t0 c * w c + ∑ c', U a c' * (C c' c * w c) := by
+    intro c
+    rw [hflat a c, add_mul, Finset.sum_mul]
+    congr 1
+    exact Finset.sum_congr rfl fun c' _ => by ring
+  simp only [this, Finset.sum_add_distrib, Finset.mul_sum]
+  rw [Finset.sum_comm, add_assoc]
+
 /-! ### the hypotheses of `ltsa_affine_on_flat_partial` from the local eigensolver contract -/
 
 section Ordered
